@@ -248,4 +248,419 @@ theorem C16_text_ignores_comments (t : String) (a : List (String × String)) (cs
 example : (Xml.elem "dataString" [] [.text "A B\n0 0\n", .other, .text "1 1\n"]).text? = some "A B\n0 0\n1 1\n" := by
   decide
 
+
+/-! ## The assembled signal list -/
+
+
+/-- undo the bidirectional rewrite of one signal -/
+def unBidir (s : Signal) : Signal :=
+  match s.typ with
+  | .bidir d => { s with typ := .input d }
+  | _ => s
+
+def isBidirTyp (s : Signal) : Bool := match s.typ with | .bidir _ => true | _ => false
+
+theorem unBidir_of_not_bidir (s : Signal) (h : isBidirTyp s = false) : unBidir s = s := by
+  unfold unBidir
+  cases ht : s.typ <;> simp [isBidirTyp, ht] at h ⊢
+
+/-- one rewrite step changes nothing but the type of one input, to the bidirectional type with the same default -/
+theorem makeBidirectional_unBidir (n : String) : ∀ (sigs sigs' : List Signal),
+    makeBidirectional n sigs = .ok sigs' → sigs'.map unBidir = sigs.map unBidir
+  | [], sigs', h => by simp [makeBidirectional] at h
+  | x :: rest, sigs', h => by
+    simp only [makeBidirectional] at h
+    split at h
+    · cases ht : x.typ with
+      | input d =>
+        simp only [ht] at h
+        cases h
+        have : x = { name := x.name, bits := x.bits, typ := .input d } := by
+          cases x; simp_all
+        simp only [List.map_cons, unBidir, ht]
+        rw [← this]
+      | output => simp [ht] at h
+      | bidir d => simp [ht] at h
+      | virt e => simp [ht] at h
+    · cases hr : makeBidirectional n rest with
+      | ok rest' =>
+        simp only [hr] at h
+        cases h
+        simp [makeBidirectional_unBidir n rest rest' hr]
+      | err e => simp [hr] at h
+      | panic m => simp [hr] at h
+
+theorem makeAll_unBidir : ∀ (ns : List String) (sigs sigs' : List Signal),
+    makeAllBidirectional ns sigs = .ok sigs' → sigs'.map unBidir = sigs.map unBidir
+  | [], sigs, sigs', h => by simp [makeAllBidirectional] at h; rw [h]
+  | n :: ns, sigs, sigs', h => by
+    simp only [makeAllBidirectional] at h
+    cases h1 : makeBidirectional n sigs with
+    | ok s1 =>
+      simp only [h1] at h
+      rw [makeAll_unBidir ns s1 sigs' h, makeBidirectional_unBidir n sigs s1 h1]
+    | err e => simp [h1] at h
+    | panic m => simp [h1] at h
+
+/-- a bidirectional signal behind a rewrite step was one before, or is the one named -/
+theorem makeBidirectional_bidir (n : String) : ∀ (sigs sigs' : List Signal),
+    makeBidirectional n sigs = .ok sigs' → ∀ s' ∈ sigs', isBidirTyp s' = true → s'.name = n ∨ s' ∈ sigs
+  | [], sigs', h => by simp [makeBidirectional] at h
+  | x :: rest, sigs', h => by
+    simp only [makeBidirectional] at h
+    split at h
+    · next hx =>
+      cases ht : x.typ with
+      | input d =>
+        simp only [ht] at h
+        cases h
+        intro s' hs' _
+        simp only [List.mem_cons] at hs'
+        rcases hs' with rfl | hs'
+        · left; simpa using hx
+        · right; simp [hs']
+      | output => simp [ht] at h
+      | bidir d => simp [ht] at h
+      | virt e => simp [ht] at h
+    · cases hr : makeBidirectional n rest with
+      | ok rest' =>
+        simp only [hr] at h
+        cases h
+        intro s' hs' hb
+        simp only [List.mem_cons] at hs'
+        rcases hs' with rfl | hs'
+        · right; simp
+        · rcases makeBidirectional_bidir n rest rest' hr s' hs' hb with h1 | h1
+          · exact Or.inl h1
+          · right; simp [h1]
+      | err e => simp [hr] at h
+      | panic m => simp [hr] at h
+
+theorem makeAll_bidir : ∀ (ns : List String) (sigs sigs' : List Signal),
+    makeAllBidirectional ns sigs = .ok sigs' → ∀ s' ∈ sigs', isBidirTyp s' = true → s'.name ∈ ns ∨ s' ∈ sigs
+  | [], sigs, sigs', h => by
+    simp [makeAllBidirectional] at h; subst h
+    intro s' hs' _; exact Or.inr hs'
+  | n :: ns, sigs, sigs', h => by
+    simp only [makeAllBidirectional] at h
+    cases h1 : makeBidirectional n sigs with
+    | ok s1 =>
+      simp only [h1] at h
+      intro s' hs' hb
+      rcases makeAll_bidir ns s1 sigs' h s' hs' hb with h2 | h2
+      · left; simp [h2]
+      · rcases makeBidirectional_bidir n sigs s1 h1 s' h2 hb with h3 | h3
+        · left; simp [h3]
+        · exact Or.inr h3
+    | err e => simp [h1] at h
+    | panic m => simp [h1] at h
+
+/-- a rewrite step makes the FIRST signal of that name bidirectional and leaves the first signal of every other name
+as it is -/
+theorem makeBidirectional_first (n : String) : ∀ (sigs sigs' : List Signal),
+    makeBidirectional n sigs = .ok sigs' →
+    (∃ s, firstNamed n sigs' = some s ∧ isBidirTyp s = true) ∧
+    ∀ m, m ≠ n → firstNamed m sigs' = firstNamed m sigs
+  | [], sigs', h => by simp [makeBidirectional] at h
+  | x :: rest, sigs', h => by
+    simp only [makeBidirectional] at h
+    split at h
+    · next hx =>
+      cases ht : x.typ with
+      | input d =>
+        simp only [ht] at h
+        cases h
+        refine ⟨⟨{ x with typ := .bidir d }, by simp [firstNamed, List.find?, hx], rfl⟩, ?_⟩
+        intro m hm
+        have : (x.name == m) = false := by
+          have : x.name = n := by simpa using hx
+          simp [this, Ne.symm hm]
+        simp [firstNamed, List.find?, this]
+      | output => simp [ht] at h
+      | bidir d => simp [ht] at h
+      | virt e => simp [ht] at h
+    · next hx =>
+      have hx' : (x.name == n) = false := by simpa using hx
+      cases hr : makeBidirectional n rest with
+      | ok rest' =>
+        simp only [hr] at h
+        cases h
+        obtain ⟨⟨s, hs, hb⟩, hk⟩ := makeBidirectional_first n rest rest' hr
+        refine ⟨⟨s, by simp [firstNamed, List.find?, hx']; exact hs, hb⟩, ?_⟩
+        intro m hm
+        simp only [firstNamed, List.find?]
+        cases (x.name == m)
+        · exact hk m hm
+        · rfl
+      | err e => simp [hr] at h
+      | panic m => simp [hr] at h
+
+theorem makeAll_first : ∀ (ns : List String) (sigs sigs' : List Signal), ns.Nodup →
+    makeAllBidirectional ns sigs = .ok sigs' →
+    (∀ n ∈ ns, ∃ s, firstNamed n sigs' = some s ∧ isBidirTyp s = true) ∧
+    ∀ m, m ∉ ns → firstNamed m sigs' = firstNamed m sigs
+  | [], sigs, sigs', _, h => by
+    simp [makeAllBidirectional] at h; subst h
+    exact ⟨by simp, fun _ _ => rfl⟩
+  | n :: ns, sigs, sigs', hnd, h => by
+    simp only [makeAllBidirectional] at h
+    have hnd' := List.nodup_cons.mp hnd
+    cases h1 : makeBidirectional n sigs with
+    | ok s1 =>
+      simp only [h1] at h
+      obtain ⟨hn, hk1⟩ := makeBidirectional_first n sigs s1 h1
+      obtain ⟨hall, hk⟩ := makeAll_first ns s1 sigs' hnd'.2 h
+      constructor
+      · intro m hm
+        simp only [List.mem_cons] at hm
+        rcases hm with rfl | hm
+        · obtain ⟨s, hs, hb⟩ := hn
+          exact ⟨s, by rw [hk _ hnd'.1]; exact hs, hb⟩
+        · exact hall m hm
+      · intro m hm
+        simp only [List.mem_cons, not_or] at hm
+        rw [hk m hm.2, hk1 m hm.1]
+    | err e => simp [h1] at h
+    | panic m => simp [h1] at h
+
+/-- the names the assembly rewrites -/
+def bidirNames (inputs outputs : List Signal) (tests : List TestDesc) : List String :=
+  match tests.mapM (fun t => headerNames t.source) with
+  | none => []
+  | some hdrs => dedupNames (classifyNames (inputs ++ outputs) hdrs.flatten).1
+
+theorem assemble_ok_inv (inputs outputs : List Signal) (tests : List TestDesc) (f : DigFile)
+    (h : digAssemble inputs outputs tests = .ok f) :
+    makeAllBidirectional (bidirNames inputs outputs tests) (inputs ++ outputs) = .ok f.signals := by
+  unfold digAssemble at h
+  simp only at h
+  unfold bidirNames
+  split at h
+  · cases h
+  · next hdrs hm =>
+    simp only [hm]
+    split at h
+    · cases h
+    · split at h
+      · next sigs hs => cases h; exact hs
+      · cases h
+      · cases h
+
+
+theorem mem_dedup : ∀ (l : List String) (a : String), a ∈ l → a ∈ dedupNames l
+  | [], a, h => by simp at h
+  | x :: xs, a, h => by
+    simp only [dedupNames]
+    simp only [List.mem_cons] at h
+    split
+    · next hc =>
+      rcases h with rfl | h
+      · exact mem_dedup xs a (by simpa using hc)
+      · exact mem_dedup xs a h
+    · rcases h with rfl | h
+      · simp
+      · exact List.mem_cons_of_mem _ (mem_dedup xs a h)
+
+theorem not_bidir_of_input (s : Signal) (h : isInputTyp s = true) : isBidirTyp s = false := by
+  cases ht : s.typ <;> simp [isInputTyp, isBidirTyp, ht] at h ⊢
+
+theorem not_bidir_of_not_isInput (s : Signal) (h : s.isInput = false) : isBidirTyp s = false := by
+  cases ht : s.typ <;> simp [Signal.isInput, isBidirTyp, ht] at h ⊢
+
+theorem map_unBidir_id : ∀ (l : List Signal), (∀ s ∈ l, isBidirTyp s = false) → l.map unBidir = l
+  | [], _ => rfl
+  | x :: xs, h => by
+    simp only [List.map_cons]
+    rw [unBidir_of_not_bidir x (h x (by simp)), map_unBidir_id xs (fun s hs => h s (by simp [hs]))]
+
+theorem pins_not_bidir (doc : Xml) : ∀ s ∈ digInputs doc ++ digOutputs doc, isBidirTyp s = false := by
+  intro s hs
+  simp only [List.mem_append] at hs
+  rcases hs with hs | hs
+  · exact not_bidir_of_input s (digInputs_typ doc s hs)
+  · exact not_bidir_of_not_isInput s (digOutputs_typ doc s hs)
+
+/-- **Faithful — names, widths, defaults, kinds, order**: turning the bidirectional signals of a loaded file back into
+inputs gives exactly the extracted pins — the labelled `In`/`Clock` elements in document order, then the labelled `Out`
+elements in document order — each with the extracted name, width and default.  The rewrite changes nothing else. -/
+theorem C16_signals_kept (doc : Xml) (f : DigFile) (h : digParse doc = .ok f) :
+    f.signals.map unBidir = digInputs doc ++ digOutputs doc := by
+  have h1 := assemble_ok_inv _ _ _ f h
+  rw [makeAll_unBidir _ _ _ h1]
+  exact map_unBidir_id _ (pins_not_bidir doc)
+
+/-- **Bidirectional exactly when the tests say so**: a loaded signal is bidirectional only if its name is one the test
+headers mark (`C16_bidirectional_only_if` says what that means), and for every marked name the first signal of that name
+is bidirectional. -/
+theorem C16_bidirectional_iff (doc : Xml) (f : DigFile) (h : digParse doc = .ok f) :
+    (∀ s ∈ f.signals, isBidirTyp s = true → s.name ∈ bidirNames (digInputs doc) (digOutputs doc) (digTests doc)) ∧
+    (∀ n ∈ bidirNames (digInputs doc) (digOutputs doc) (digTests doc),
+      ∃ s, firstNamed n f.signals = some s ∧ isBidirTyp s = true) := by
+  have h1 := assemble_ok_inv _ _ _ f h
+  constructor
+  · intro s hs hb
+    rcases makeAll_bidir _ _ _ h1 s hs hb with h2 | h2
+    · exact h2
+    · rw [pins_not_bidir doc s h2] at hb; cases hb
+  · have hnd : (bidirNames (digInputs doc) (digOutputs doc) (digTests doc)).Nodup := by
+      unfold bidirNames
+      split
+      · simp
+      · exact dedup_nodup _
+    exact (makeAll_first _ _ _ hnd h1).1
+
+/-- the marked names are those the classification finds in the headers of all tests -/
+theorem C16_bidir_names (inputs outputs : List Signal) (tests : List TestDesc) (hdrs : List (List String))
+    (hm : tests.mapM (fun t => headerNames t.source) = some hdrs) (n : String) :
+    n ∈ bidirNames inputs outputs tests ↔ n ∈ (classifyNames (inputs ++ outputs) hdrs.flatten).1 := by
+  unfold bidirNames
+  simp only [hm]
+  exact ⟨dedup_mem _ n, mem_dedup _ n⟩
+
+theorem classify_plain (signals : List Signal) : ∀ (names : List String) (n : String),
+    n ∈ (classifyNames signals names).2 → n ∈ names
+  | [], n, h => by simp [classifyNames] at h
+  | name :: rest, n, h => by
+    simp only [classifyNames] at h
+    split at h
+    · split at h
+      · exact List.mem_cons_of_mem _ (classify_plain signals rest n h)
+      · simp only [List.mem_cons] at h
+        rcases h with rfl | h
+        · simp
+        · exact List.mem_cons_of_mem _ (classify_plain signals rest n h)
+    · simp only [List.mem_cons] at h
+      rcases h with rfl | h
+      · simp
+      · exact List.mem_cons_of_mem _ (classify_plain signals rest n h)
+
+theorem mapM_none_iff {α β : Type} (g : α → Option β) : ∀ (l : List α),
+    l.mapM g = none ↔ ∃ a ∈ l, g a = none
+  | [] => by simp
+  | a :: as => by
+    simp only [List.mapM_cons, List.mem_cons]
+    cases ha : g a with
+    | none => simp [ha]
+    | some b =>
+      have ih := mapM_none_iff g as
+      cases hr : as.mapM g with
+      | none =>
+        have := ih.mp hr
+        obtain ⟨x, hx, hg⟩ := this
+        simp only [Option.bind_eq_bind, Option.bind_some, Option.bind_none, true_iff]
+        exact ⟨x, Or.inr hx, hg⟩
+      | some bs =>
+        simp only [Option.bind_eq_bind, Option.bind_some, Option.pure_def, reduceCtorEq, false_iff]
+        rintro ⟨x, hx | hx, hg⟩
+        · subst hx; rw [ha] at hg; cases hg
+        · have := ih.mpr ⟨x, hx, hg⟩
+          rw [hr] at this; cases this
+
+theorem makeBidirectional_no_err (n : String) : ∀ (sigs : List Signal) (e : DigErr), makeBidirectional n sigs ≠ .err e
+  | [], e => by simp [makeBidirectional]
+  | x :: rest, e => by
+    simp only [makeBidirectional]
+    split
+    · cases x.typ <;> simp
+    · have := makeBidirectional_no_err n rest
+      cases hr : makeBidirectional n rest with
+      | ok r => simp
+      | err e' => exact absurd hr (this e')
+      | panic m => simp
+
+theorem makeAll_no_err : ∀ (ns : List String) (sigs : List Signal) (e : DigErr), makeAllBidirectional ns sigs ≠ .err e
+  | [], sigs, e => by simp [makeAllBidirectional]
+  | n :: ns, sigs, e => by
+    simp only [makeAllBidirectional]
+    cases h1 : makeBidirectional n sigs with
+    | ok s1 => exact makeAll_no_err ns s1 e
+    | err e' => exact absurd h1 (makeBidirectional_no_err n sigs e')
+    | panic m => simp
+
+/-- **The two ways a description is refused** (neither is a panic): a test whose source has no header line, and a
+header name that is neither a pin nor the `_out` side of an input — every name reported missing stands in a header and
+names no signal. -/
+theorem C16_errors (inputs outputs : List Signal) (tests : List TestDesc) :
+    (digAssemble inputs outputs tests = .err .emptyTest ↔ ∃ t ∈ tests, headerNames t.source = none) ∧
+    (∀ ms, digAssemble inputs outputs tests = .err (.missingSignals ms) →
+      ms ≠ [] ∧ ∃ hdrs, tests.mapM (fun t => headerNames t.source) = some hdrs ∧
+        ∀ n ∈ ms, n ∈ hdrs.flatten ∧ (inputs ++ outputs).any (fun s => s.name == n) = false) := by
+  constructor
+  · rw [← mapM_none_iff]
+    unfold digAssemble
+    simp only
+    cases hm : tests.mapM (fun t => headerNames t.source) with
+    | none => simp
+    | some hdrs =>
+      simp only
+      split
+      · simp
+      · cases hr : makeAllBidirectional (dedupNames (classifyNames (inputs ++ outputs) hdrs.flatten).1) (inputs ++ outputs) with
+        | ok r => simp
+        | err e => exact absurd hr (makeAll_no_err _ _ e)
+        | panic m => simp
+  · intro ms h
+    unfold digAssemble at h
+    simp only at h
+    cases hm : tests.mapM (fun t => headerNames t.source) with
+    | none => simp [hm] at h
+    | some hdrs =>
+      simp only [hm] at h
+      split at h
+      · next hne =>
+        cases h
+        refine ⟨by intro he; rw [he] at hne; simp at hne, hdrs, rfl, ?_⟩
+        intro n hn
+        simp only [List.mem_filter, Bool.not_eq_true'] at hn
+        exact ⟨classify_plain _ _ n hn.1, hn.2⟩
+      · cases hr : makeAllBidirectional (dedupNames (classifyNames (inputs ++ outputs) hdrs.flatten).1) (inputs ++ outputs) with
+        | ok r => simp [hr] at h
+        | err e => exact absurd hr (makeAll_no_err _ _ e)
+        | panic m => simp [hr] at h
+
+/-- **An attribute is looked up among the element's own entries** (fix F19): the value `attrib` returns is a child of an
+`entry` child of an `elementAttributes` child of the element, and that entry carries the key as the character data of a
+`string` child — entries nested deeper, inside some value, are never used. -/
+theorem C16_attrib_own_entry (node : Xml) (label : String) (v : Xml) (h : attrib node label = some v) :
+    ∃ attribs ∈ node.children, attribs.tag = "elementAttributes" ∧
+      ∃ entry ∈ attribs.children, entry.tag = "entry" ∧ v ∈ entry.children ∧ v.isElem = true ∧
+        ∃ k ∈ entry.children, k.tag = "string" ∧ k.text? = some label := by
+  unfold attrib at h
+  split at h
+  · cases h
+  · next attribs ha =>
+    simp only at h
+    split at h
+    · cases h
+    · next entry he =>
+      refine ⟨attribs, List.mem_of_find?_eq_some ha, by simpa using List.find?_some ha, ?_⟩
+      have hmem := List.mem_of_find?_eq_some he
+      have hp := List.find?_some he
+      simp only [List.mem_filter] at hmem
+      refine ⟨entry, hmem.1, by simpa using hmem.2, ?_⟩
+      unfold Xml.lastElemChild at h
+      have hv := List.mem_of_find?_eq_some h
+      refine ⟨by simpa using hv, List.find?_some h, ?_⟩
+      split at hp
+      · cases hp
+      · next s hs =>
+        unfold Xml.firstElemChild at hs
+        simp only [Bool.and_eq_true, beq_iff_eq] at hp
+        exact ⟨s, List.mem_of_find?_eq_some hs, hp.1, hp.2⟩
+
+
+def pinX (kind label : String) : Xml :=
+  .elem "visualElement" [] [.elem "elementName" [] [.text kind],
+    .elem "elementAttributes" [] [.elem "entry" [] [.elem "string" [] [.text "Label"], .elem "string" [] [.text label]]]]
+def testX (src : String) : Xml :=
+  .elem "visualElement" [] [.elem "elementName" [] [.text "Testcase"],
+    .elem "elementAttributes" [] [.elem "entry" [] [.elem "string" [] [.text "Testdata"],
+      .elem "testData" [] [.elem "dataString" [] [.text src]]]]]
+def exDoc : Xml := .elem "circuit" [] [.elem "visualElements" [] [pinX "Out" "Q", pinX "In" "A", testX "A A_out Q\n0 0 0\n"]]
+/-- the hypotheses are satisfiable: a document with an input `A`, an output `Q` and a test whose header uses `A_out`
+loads, and `A` comes out bidirectional, in front of `Q` -/
+example : (match digParse exDoc with
+    | .ok f => f.signals.map (fun s => (s.name, isInputTyp s, s.isInput, s.isOutput)) == [("A", false, true, true), ("Q", false, false, true)]
+    | _ => false) = true := by decide
+
 end Dtr
